@@ -49,8 +49,13 @@ func (e *Engine) objKey(obj types.Object) string {
 	return fmt.Sprintf("%s#%d", obj.Name(), pos.Offset)
 }
 
-// Canon computes the canonical key of an expression, if it is a path or a pure atom.
-func (e *Engine) Canon(x ast.Expr) keyInfo {
+// Canon computes the canonical key of an expression, if it is a path or a pure atom (no value aliases).
+func (e *Engine) Canon(x ast.Expr) keyInfo { return e.canon(nil, x) }
+
+// CanonSt is Canon under the value aliases recorded in st (`v := path` makes v denote path).
+func (e *Engine) CanonSt(st *State, x ast.Expr) keyInfo { return e.canon(st, x) }
+
+func (e *Engine) canon(st *State, x ast.Expr) keyInfo {
 	info := e.Info
 	x = ast.Unparen(x)
 	if tv, ok := info.Types[x]; ok && tv.Value != nil {
@@ -61,7 +66,13 @@ func (e *Engine) Canon(x ast.Expr) keyInfo {
 		obj := objOf(info, x)
 		switch o := obj.(type) {
 		case *types.Var:
-			return keyInfo{Key: e.objKey(o), Objs: []types.Object{o}, OK: true}
+			k := e.objKey(o)
+			if st != nil {
+				if a := st.facts["val:"+k]; a != nil && a.Alias != nil {
+					return *a.Alias
+				}
+			}
+			return keyInfo{Key: k, Objs: []types.Object{o}, OK: true}
 		case *types.Nil:
 			return keyInfo{Key: "nil", OK: true}
 		}
@@ -70,7 +81,7 @@ func (e *Engine) Canon(x ast.Expr) keyInfo {
 			if sel.Kind() != types.FieldVal {
 				return keyInfo{}
 			}
-			base := e.Canon(x.X)
+			base := e.canon(st, x.X)
 			if !base.OK {
 				return keyInfo{}
 			}
@@ -85,7 +96,7 @@ func (e *Engine) Canon(x ast.Expr) keyInfo {
 			return keyInfo{Key: e.objKey(v), Objs: []types.Object{v}, OK: true}
 		}
 	case *ast.StarExpr:
-		base := e.Canon(x.X)
+		base := e.canon(st, x.X)
 		if !base.OK {
 			return keyInfo{}
 		}
@@ -93,8 +104,8 @@ func (e *Engine) Canon(x ast.Expr) keyInfo {
 		base.Heap = true
 		return base
 	case *ast.IndexExpr:
-		base := e.Canon(x.X)
-		idx := e.Canon(x.Index)
+		base := e.canon(st, x.X)
+		idx := e.canon(st, x.Index)
 		if !base.OK || !idx.OK {
 			return keyInfo{}
 		}
@@ -107,7 +118,7 @@ func (e *Engine) Canon(x ast.Expr) keyInfo {
 		if id, ok := ast.Unparen(x.Fun).(*ast.Ident); ok {
 			if b, ok := info.Uses[id].(*types.Builtin); ok {
 				if (b.Name() == "len" || b.Name() == "cap") && len(x.Args) == 1 {
-					a := e.Canon(x.Args[0])
+					a := e.canon(st, x.Args[0])
 					if !a.OK {
 						return keyInfo{}
 					}
@@ -118,7 +129,7 @@ func (e *Engine) Canon(x ast.Expr) keyInfo {
 			}
 		}
 		if tv, ok := info.Types[x.Fun]; ok && tv.IsType() && len(x.Args) == 1 {
-			return e.Canon(x.Args[0]) // conversion: same value for fact purposes
+			return e.canon(st, x.Args[0]) // conversion: same value for fact purposes
 		}
 		callee := Callee(info, x)
 		var out keyInfo
@@ -128,7 +139,7 @@ func (e *Engine) Canon(x ast.Expr) keyInfo {
 			name = callee.FullName()
 			if sel, ok := ast.Unparen(x.Fun).(*ast.SelectorExpr); ok {
 				if _, isSel := info.Selections[sel]; isSel {
-					r := e.Canon(sel.X)
+					r := e.canon(st, sel.X)
 					if !r.OK {
 						return keyInfo{}
 					}
@@ -137,7 +148,7 @@ func (e *Engine) Canon(x ast.Expr) keyInfo {
 				}
 			}
 		} else {
-			f := e.Canon(x.Fun)
+			f := e.canon(st, x.Fun)
 			if !f.OK {
 				return keyInfo{}
 			}
@@ -145,7 +156,7 @@ func (e *Engine) Canon(x ast.Expr) keyInfo {
 			name = "dyn:" + f.Key
 		}
 		for _, a := range x.Args {
-			ak := e.Canon(a)
+			ak := e.canon(st, a)
 			if !ak.OK {
 				return keyInfo{}
 			}
@@ -169,14 +180,14 @@ func (e *Engine) Canon(x ast.Expr) keyInfo {
 		if x.Type == nil {
 			return keyInfo{}
 		}
-		base := e.Canon(x.X)
+		base := e.canon(st, x.X)
 		if !base.OK {
 			return keyInfo{}
 		}
 		base.Key = "assert(" + base.Key + "," + TypeStr(info.TypeOf(x.Type)) + ")"
 		return base
 	case *ast.BinaryExpr:
-		a, b := e.Canon(x.X), e.Canon(x.Y)
+		a, b := e.canon(st, x.X), e.canon(st, x.Y)
 		if !a.OK || !b.OK {
 			return keyInfo{}
 		}
@@ -192,7 +203,7 @@ func (e *Engine) Canon(x ast.Expr) keyInfo {
 		return out
 	case *ast.UnaryExpr:
 		if x.Op == token.NOT || x.Op == token.SUB {
-			a := e.Canon(x.X)
+			a := e.canon(st, x.X)
 			if !a.OK {
 				return keyInfo{}
 			}
